@@ -98,7 +98,7 @@ Lemma max_kernels_length h w ks ss : length (max_kernels h w ks ss) = Nat.min (l
 Proof. unfold max_kernels. now rewrite map_length, fmaps_length. Qed.
 
 (* ---- the structural invariant and the per-quantity bounds *)
-Theorem cnn_wf_inv st c a m r1 r2 : cnn_wf a -> cnn_wf (arch_of (cnn_step st c a m r1 r2)).
+Theorem cnn_wf_inv st c a m r1 r2 : cnn_wf a -> cnn_wf (arch_of (cnn_step_prefix st c a m r1 r2)).
 Proof.
   intros [Hk Hs].
   assert (Hadd : forall hl nn, cnn_wf (arch_of (cnn_add_channel c a hl nn r1 r2))).
@@ -106,17 +106,17 @@ Proof.
   assert (Hal : cnn_wf (arch_of (cnn_add_layer st c a r1 r2))).
   { unfold cnn_add_layer. destruct (last_fmap _ _ _ _) as [ho wo]. destruct (_ && _ && _); [|apply Hadd].
     unfold arch_of, cnn_wf; cbn [fst channels kernels strides]. rewrite !zlen_app. cbn. lia. }
-  destruct m as [| |ks hl|hl nn|hl nn]; cbn [cnn_step]; auto.
+  destruct m as [| |ks hl|hl nn|hl nn]; cbn [cnn_step_prefix]; auto.
   - unfold cnn_remove_layer. destruct (_ <? _); [|apply Hadd].
     unfold arch_of, cnn_wf; cbn [fst channels kernels strides]. rewrite !zlen_removelast. lia.
-  - unfold cnn_change_kernel. destruct (_ <? _); [|apply Hal].
+  - unfold cnn_change_kernel_prefix. destruct (_ <? _); [|apply Hal].
     destruct hl; unfold arch_of, cnn_wf; cbn [fst channels kernels strides]; rewrite zlen_updz; auto.
   - destruct (cnn_remove_channel_spec c a hl nn r1 r2) as (E1 & E2 & E3 & _). unfold cnn_wf. rewrite E1, E2, E3. auto.
 Qed.
 
 Theorem cnn_channels_inv st c a m r1 r2 lo hi :
   lo <= c_min_ch c -> c_max_ch c <= hi -> cnn_meth_ok m -> channels a <> [] ->
-  Forall (between lo hi) (channels a) -> Forall (between lo hi) (channels (arch_of (cnn_step st c a m r1 r2))).
+  Forall (between lo hi) (channels a) -> Forall (between lo hi) (channels (arch_of (cnn_step_prefix st c a m r1 r2))).
 Proof.
   intros Hlo Hhi Hm Hne HF.
   assert (Hadd : forall hl nn, amount_ok nn -> Forall (between lo hi) (channels (arch_of (cnn_add_channel c a hl nn r1 r2)))).
@@ -125,17 +125,17 @@ Proof.
   { unfold cnn_add_layer. destruct (last_fmap _ _ _ _) as [ho wo]. destruct (_ && _ && _); [|apply Hadd; cbn; auto].
     unfold arch_of; cbn [fst channels]. apply Forall_app; split; auto. constructor; auto.
     rewrite Forall_forall in HF. apply HF. now apply last_In. }
-  destruct m as [| |ks hl|hl nn|hl nn]; cbn [cnn_step]; auto.
+  destruct m as [| |ks hl|hl nn|hl nn]; cbn [cnn_step_prefix]; auto.
   - unfold cnn_remove_layer. destruct (_ <? _); [|apply Hadd; cbn; auto].
     unfold arch_of; cbn [fst channels]. now apply Forall_removelast.
-  - unfold cnn_change_kernel. destruct (_ <? _); [|apply Hal].
+  - unfold cnn_change_kernel_prefix. destruct (_ <? _); [|apply Hal].
     destruct hl; unfold arch_of; cbn [fst channels]; auto.
   - destruct (cnn_remove_channel_spec c a hl nn r1 r2) as (_ & _ & _ & H). now apply H.
 Qed.
 
 Theorem cnn_layers_inv st c a m r1 r2 lo hi :
   lo <= c_min_layers c -> c_max_layers c <= hi -> 1 <= lo ->
-  lo <= zlen (channels a) <= hi -> lo <= zlen (channels (arch_of (cnn_step st c a m r1 r2))) <= hi.
+  lo <= zlen (channels a) <= hi -> lo <= zlen (channels (arch_of (cnn_step_prefix st c a m r1 r2))) <= hi.
 Proof.
   intros Hlo Hhi H1 HL.
   assert (Hadd : forall hl nn, zlen (channels (arch_of (cnn_add_channel c a hl nn r1 r2))) = zlen (channels a)).
@@ -144,10 +144,10 @@ Proof.
   { unfold cnn_add_layer. destruct (last_fmap _ _ _ _) as [ho wo].
     destruct (Z.ltb_spec (zlen (channels a)) (c_max_layers c)); cbn [andb]; [|now rewrite Hadd].
     destruct (_ && _); [|now rewrite Hadd]. unfold arch_of; cbn [fst channels]. rewrite zlen_app. cbn. lia. }
-  destruct m as [| |ks hl|hl nn|hl nn]; cbn [cnn_step]; auto.
+  destruct m as [| |ks hl|hl nn|hl nn]; cbn [cnn_step_prefix]; auto.
   - unfold cnn_remove_layer. destruct (Z.ltb_spec (c_min_layers c) (zlen (channels a))); [|now rewrite Hadd].
     unfold arch_of; cbn [fst channels]. rewrite zlen_removelast. lia.
-  - unfold cnn_change_kernel. destruct (_ <? _); [|apply Hal].
+  - unfold cnn_change_kernel_prefix. destruct (_ <? _); [|apply Hal].
     destruct hl; unfold arch_of; cbn [fst channels]; auto.
   - now rewrite Hadd.
   - destruct (cnn_remove_channel_spec c a hl nn r1 r2) as (_ & _ & E & _). now rewrite E.
@@ -157,7 +157,7 @@ Qed.
    are never increased: every interval [1, K] with 9 <= K is invariant *)
 Theorem cnn_kernels_inv st c a m r1 r2 K :
   9 <= K -> cnn_meth_ok m -> cnn_wf a ->
-  Forall (between 1 K) (kernels a) -> Forall (between 1 K) (kernels (arch_of (cnn_step st c a m r1 r2))).
+  Forall (between 1 K) (kernels a) -> Forall (between 1 K) (kernels (arch_of (cnn_step_prefix st c a m r1 r2))).
 Proof.
   intros HK Hm [Hwk Hws] HF.
   assert (Hadd : forall hl nn, kernels (arch_of (cnn_add_channel c a hl nn r1 r2)) = kernels a).
@@ -170,10 +170,10 @@ Proof.
     destruct (_ && _); cbn [andb]; [|now rewrite Hadd].
     unfold arch_of; cbn [fst kernels]. apply Forall_app; split; auto. constructor; auto.
     pose proof (pick_range 2 (mk + 1) r1). unfold between. lia. }
-  destruct m as [| |ks hl|hl nn|hl nn]; cbn [cnn_step]; auto.
+  destruct m as [| |ks hl|hl nn|hl nn]; cbn [cnn_step_prefix]; auto.
   - unfold cnn_remove_layer. destruct (_ <? _); [|now rewrite Hadd].
     unfold arch_of; cbn [fst kernels]. now apply Forall_removelast.
-  - unfold cnn_change_kernel. destruct (_ <? _); [|apply Hal].
+  - unfold cnn_change_kernel_prefix. destruct (_ <? _); [|apply Hal].
     assert (Hgen : forall i r, Forall (between 1 K) (updz (kernels a) i (fun _ =>
                match ks with Some k => k | None => pick 1 (znth (max_kernels (cs_h st) (cs_w st) (kernels a) (strides a)) i + 1) r end))).
     { intros i r. unfold updz. apply upd_forall; auto. intros Hi. destruct ks as [k|]; [cbn in Hm; unfold between; lia|].
@@ -189,7 +189,7 @@ Qed.
 
 (* strides: a new layer's stride is drawn from [1, stride of the last layer] *)
 Theorem cnn_strides_inv st c a m r1 r2 S :
-  strides a <> [] -> Forall (between 1 S) (strides a) -> Forall (between 1 S) (strides (arch_of (cnn_step st c a m r1 r2))).
+  strides a <> [] -> Forall (between 1 S) (strides a) -> Forall (between 1 S) (strides (arch_of (cnn_step_prefix st c a m r1 r2))).
 Proof.
   intros Hne HF.
   assert (Hadd : forall hl nn, strides (arch_of (cnn_add_channel c a hl nn r1 r2)) = strides a).
@@ -199,10 +199,10 @@ Proof.
     unfold arch_of; cbn [fst strides]. apply Forall_app; split; auto. constructor; auto.
     assert (between 1 S (last (strides a) 0)) by (rewrite Forall_forall in HF; apply HF; now apply last_In).
     unfold between in *. pose proof (pick_range 1 (last (strides a) 0 + 1) r2). lia. }
-  destruct m as [| |ks hl|hl nn|hl nn]; cbn [cnn_step]; auto.
+  destruct m as [| |ks hl|hl nn|hl nn]; cbn [cnn_step_prefix]; auto.
   - unfold cnn_remove_layer. destruct (_ <? _); [|now rewrite Hadd].
     unfold arch_of; cbn [fst strides]. now apply Forall_removelast.
-  - unfold cnn_change_kernel. destruct (_ <? _); [|apply Hal].
+  - unfold cnn_change_kernel_prefix. destruct (_ <? _); [|apply Hal].
     destruct hl; unfold arch_of; cbn [fst strides]; auto.
   - now rewrite Hadd.
   - destruct (cnn_remove_channel_spec c a hl nn r1 r2) as (_ & E & _). now rewrite E.
@@ -270,7 +270,7 @@ Proof. unfold cnn_wf, zlen. lia. Qed.
 Theorem cnn_valid_inv_partial st c a m r1 r2 :
   1 <= c_min_layers c -> 1 <= c_min_ch c -> cnn_meth_ok m ->
   (match m with CChangeKernel _ _ => False | _ => True end) ->
-  cnn_ok st a -> cnn_ok st (arch_of (cnn_step st c a m r1 r2)).
+  cnn_ok st a -> cnn_ok st (arch_of (cnn_step_prefix st c a m r1 r2)).
 Proof.
   intros Hl Hc Hm Hnot Hok. pose proof Hok as Hok0. apply cnn_ok_parts in Hok. destruct Hok as (Hne & Hwf & Hpos & Hfm).
   destruct (wf_lengths a Hwf) as [Lk Ls].
@@ -284,7 +284,7 @@ Proof.
     - unfold cnn_wf. rewrite E1, E2, E3. apply Hwf.
     - eapply Forall_impl; [|exact HF]. unfold between; intros; lia.
     - now rewrite E1, E2. }
-  destruct m as [| |ks hl|hl nn|hl nn]; cbn [cnn_step]; try contradiction.
+  destruct m as [| |ks hl|hl nn|hl nn]; cbn [cnn_step_prefix]; try contradiction.
   - (* add_layer *)
     unfold cnn_add_layer.
     set (mk := last (max_kernels (cs_h st) (cs_w st) (kernels a) (strides a)) 1).
@@ -341,7 +341,7 @@ Qed.
 Theorem cnn_change_kernel_valid_refuted :
   exists st c a r1 r2,
     cnn_ok st a /\ cnn_meth_ok (CChangeKernel None None) /\
-    cnn_valid st (arch_of (cnn_step st c a (CChangeKernel None None) r1 r2)) = false.
+    cnn_valid st (arch_of (cnn_step_prefix st c a (CChangeKernel None None) r1 r2)) = false.
 Proof.
   exists {| cs_in_ch := 1; cs_h := 8; cs_w := 8; cs_out := 1; cs_layer_norm := false |},
          {| c_min_layers := 1; c_max_layers := 6; c_min_ch := 32; c_max_ch := 256 |},
@@ -354,12 +354,12 @@ Theorem cnn_add_layer_effective st c a r1 r2 :
   let mk := last (max_kernels (cs_h st) (cs_w st) (kernels a) (strides a)) 1 in
   zlen (channels a) < c_max_layers c -> 2 < fst (last_fmap (cs_h st) (cs_w st) (kernels a) (strides a)) ->
   2 < snd (last_fmap (cs_h st) (cs_w st) (kernels a) (strides a)) -> 2 < mk ->
-  let a' := arch_of (cnn_step st c a CAddLayer r1 r2) in
-  name_of (cnn_step st c a CAddLayer r1 r2) = "add_layer"%string /\
+  let a' := arch_of (cnn_step_prefix st c a CAddLayer r1 r2) in
+  name_of (cnn_step_prefix st c a CAddLayer r1 r2) = "add_layer"%string /\
   channels a' = channels a ++ [last (channels a) 0] /\
   kernels a' = kernels a ++ [pick 2 (mk + 1) r1] /\ strides a' = strides a ++ [pick 1 (last (strides a) 0 + 1) r2].
 Proof.
-  intros mk H1 H2 H3 H4. cbn [cnn_step]. unfold cnn_add_layer. fold mk.
+  intros mk H1 H2 H3 H4. cbn [cnn_step_prefix]. unfold cnn_add_layer. fold mk.
   destruct (last_fmap (cs_h st) (cs_w st) (kernels a) (strides a)) as [ho wo]. cbn [fst snd] in *.
   destruct (Z.ltb_spec (zlen (channels a)) (c_max_layers c)); [|lia].
   destruct (Z.leb_spec ho 2); [lia|]. destruct (Z.leb_spec wo 2); [lia|]. destruct (Z.ltb_spec 2 mk); [|lia].
@@ -368,17 +368,17 @@ Qed.
 
 Theorem cnn_remove_layer_effective st c a r1 r2 :
   c_min_layers c < zlen (channels a) ->
-  cnn_step st c a CRemoveLayer r1 r2 =
+  cnn_step_prefix st c a CRemoveLayer r1 r2 =
   ({| channels := removelast (channels a); kernels := removelast (kernels a); strides := removelast (strides a) |},
    "remove_layer"%string, []).
-Proof. intros H. cbn [cnn_step]. unfold cnn_remove_layer. destruct (Z.ltb_spec (c_min_layers c) (zlen (channels a))); [auto|lia]. Qed.
+Proof. intros H. cbn [cnn_step_prefix]. unfold cnn_remove_layer. destruct (Z.ltb_spec (c_min_layers c) (zlen (channels a))); [auto|lia]. Qed.
 
 Theorem cnn_layer_fallback st c a r1 r2 :
-  (c_max_layers c <= zlen (channels a) -> cnn_step st c a CAddLayer r1 r2 = cnn_add_channel c a None None r1 r2) /\
-  (zlen (channels a) <= c_min_layers c -> cnn_step st c a CRemoveLayer r1 r2 = cnn_add_channel c a None None r1 r2) /\
+  (c_max_layers c <= zlen (channels a) -> cnn_step_prefix st c a CAddLayer r1 r2 = cnn_add_channel c a None None r1 r2) /\
+  (zlen (channels a) <= c_min_layers c -> cnn_step_prefix st c a CRemoveLayer r1 r2 = cnn_add_channel c a None None r1 r2) /\
   name_of (cnn_add_channel c a None None r1 r2) = "add_channel"%string.
 Proof.
-  split; [|split]; intros; cbn [cnn_step].
+  split; [|split]; intros; cbn [cnn_step_prefix].
   - unfold cnn_add_layer. destruct (last_fmap _ _ _ _). destruct (Z.ltb_spec (zlen (channels a)) (c_max_layers c)); [lia|reflexivity].
   - unfold cnn_remove_layer. destruct (Z.ltb_spec (c_min_layers c) (zlen (channels a))); [lia|reflexivity].
   - unfold name_of, cnn_add_channel. destruct (cnn_channel_args _ _ _ _ _). reflexivity.
@@ -388,11 +388,11 @@ Theorem cnn_change_kernel_effective st c a ks hl r1 r2 :
   1 < zlen (channels a) ->
   let '(i, r) := match hl with Some l => (l, r1) | None => (pick 1 (Z.min 4 (zlen (channels a))) r1, r2) end in
   let k := match ks with Some k => k | None => pick 1 (znth (max_kernels (cs_h st) (cs_w st) (kernels a) (strides a)) i + 1) r end in
-  cnn_step st c a (CChangeKernel ks hl) r1 r2 =
+  cnn_step_prefix st c a (CChangeKernel ks hl) r1 r2 =
   ({| channels := channels a; kernels := updz (kernels a) i (fun _ => k); strides := strides a |}, "change_kernel"%string, [i; k]) /\
   (hl = None -> 1 <= i < zlen (channels a)).
 Proof.
-  intros H. cbn [cnn_step]. unfold cnn_change_kernel. destruct (Z.ltb_spec 1 (zlen (channels a))); [|lia].
+  intros H. cbn [cnn_step_prefix]. unfold cnn_change_kernel_prefix. destruct (Z.ltb_spec 1 (zlen (channels a))); [|lia].
   destruct hl as [l|]; split; auto; try discriminate.
   intros _. pose proof (pick_range 1 (Z.min 4 (zlen (channels a))) r1). lia.
 Qed.
